@@ -63,6 +63,8 @@ FEATURES = {
     "deprecated_only": "message M { option deprecated = true; int32 x = 1 [deprecated = true]; }",
     # a field named like a builtin scalar type, declared FIRST, then fields of that scalar in every label: the order
     # for which the plugin's builtins.<type> qualification is meant to work under every option combination
+    # proto names starting with an underscore followed by a digit keep the underscore in Python (_1, _2_fa)
+    "underscore_digit_names": "message M { oneof g { int32 _1 = 1; string _2 = 2; M _3m = 7; } int32 _3 = 3; message Inner { int32 _1 = 1; string _2fa = 2; } Inner sub = 4; repeated Inner subs = 5; optional int32 _4 = 6; }",
     # oneof group names that are not plain snake_case (the group name is part of the public API: which_one_of(m, name))
     "oneof_names": "message M { oneof fooBar { int32 a = 1; string b = 2; } oneof foo_bar { int32 c = 3; string d = 4; } oneof class { int32 e = 5; bool f = 6; } oneof _lead { int32 g = 7; bytes h = 8; } oneof Variant { M i = 9; } }",
     # type names made of capitals only / ending in a capital, nested in each other (flattened class names)
@@ -134,7 +136,7 @@ def value_items(tier: str, seed: int, n_gen: int, with_inputs: bool = True) -> L
     # the matrix schema also as generated under the other typing / dataclass options (one sampled shard each):
     # the runtime reads the classes' type hints, which look different there (X | None, list[...], pydantic)
     items: List[dict] = [{"kind": "matrix"}, {"kind": "handmade"}, {"kind": "matrix", "plugin_opts": "typing.310"},
-                         {"kind": "matrix", "plugin_opts": "pydantic_dataclasses"}]
+                         {"kind": "matrix", "plugin_opts": "pydantic_dataclasses"}, {"kind": "features"}]
     for i in range(n_gen):
         items.append({"kind": "gen", "seed": seed * 100003 + i, "opts": {"services": False}})
     if with_inputs:
